@@ -565,4 +565,25 @@ example : krausChoiE [mk2 1 0 0 ⟨3/5, 0⟩, mk2 0 ⟨4/5, 0⟩ 0 0] =
       else if r.val = 3 ∧ c.val = 3 then ⟨9/25, 0⟩ else if r.val = 1 ∧ c.val = 1 then ⟨16/25, 0⟩ else 0 := by
   funext r c; revert r c; decide +kernel
 
+/-- **C17.4e** (what the worker tie compares) for the probabilities observed along one probe sequence and `k` segments,
+    `expectedCalls` is the weight the worker must return and the number of re-preparations it must have made: the full
+    product after exactly `k` re-preparations when no partial product falls below `1e-15` (and `k` probabilities were seen),
+    otherwise the partial product at the break — which is below `1e-15` — after the re-preparations up to and including it -/
+theorem expected_calls_spec (k : Nat) (probs : List Rat) :
+    (∀ w n, seqWalk probs 1 0 = (w, n, false) → expectedCalls k probs = (weightProd probs, k)) ∧
+    (∀ w n, seqWalk probs 1 0 = (w, n, true) →
+      expectedCalls k probs = (w, n) ∧ w < thr15 ∧ n ≤ probs.length ∧ w = weightProd (probs.take n)) := by
+  constructor
+  · intro w n h
+    obtain ⟨hw, _⟩ := weights_walk_alive probs w n h
+    simp [expectedCalls, h, hw]
+  · intro w n h
+    obtain ⟨h1, h2, h3⟩ := weights_walk_dead probs w n h
+    exact ⟨by simp [expectedCalls, h], h1, h2, h3⟩
+
+/-- the row-major reading of a flat `(2d)×(2d)` array as a joint operator (numpy `reshape(2, d, 2, d)`), as the `comb` and
+    `applychoi` requests use it: entry `[(s,c),(s',c')]` is the array entry at `(s·d + c)·2d + (s'·d + c')` -/
+theorem jointOfFlat_entry (d : Nat) (arr : Array CRatT) (s s' : Fin 2) (c c' : Fin d) :
+    jointOfFlat d arr (s, c) (s', c') = arr.getD ((s.val * d + c.val) * (2 * d) + (s'.val * d + c'.val)) 0 := rfl
+
 end Yaqs.Tomo
